@@ -315,7 +315,8 @@ def _classify(path, S, root, allowed):
 def _serve_world(sc, S, root, cwd_name, tape):
     """Serve every request once in this world; returns (responses, logs, monitor violations, counters, run)."""
     cwd = {"outside": os.path.join(S, "outside"), "root": root, "/": "/", "S": S}[cwd_name]
-    allowed = [sys.prefix, sys.base_prefix, harness.REPO, "/verif", "/usr/share/zoneinfo", "/dev/null",
+    here = os.path.dirname(os.path.dirname(os.path.abspath(__file__)))
+    allowed = [sys.prefix, sys.base_prefix, harness.REPO, here, "/verif", "/usr/share/zoneinfo", "/dev/null",
                "/usr/lib", "/lib", "/bin/zcat", "/usr/bin/zcat", "/etc/localtime", "/proc/self"]
     tp = Tape(sc["sched_seed"], replay=tape)
     run = harness.SimRun(root, tp, sc["sched_seed"], servertype=sc["servertype"], tls=True,
